@@ -579,9 +579,20 @@ class DateTimeFieldFormat(AbstractFieldFormat):
         super().__init__(field_name, is_allowed_to_be_empty, length, rule, data_format, empty_value)
         self.human_readable_format = rule
 
-        self.strptime_format = rule
-        for human_readyble_item, strptime_item in DateTimeFieldFormat._HUMAN_READABLE_TO_STRPTIME_TUPLES:
-            self.strptime_format = self.strptime_format.replace(human_readyble_item, strptime_item)
+        # NOTE: Translate the rule in a single pass from left to right because replacing one item after another
+        # could take for example the "m" of an already translated "%m" and a following "m" for the item "mm".
+        self.strptime_format = ""
+        rule_index = 0
+        while rule_index < len(rule):
+            translated_item = rule[rule_index]
+            translated_length = 1
+            for human_readable_item, strptime_item in DateTimeFieldFormat._HUMAN_READABLE_TO_STRPTIME_TUPLES:
+                if rule.startswith(human_readable_item, rule_index):
+                    translated_item = strptime_item
+                    translated_length = len(human_readable_item)
+                    break
+            self.strptime_format += translated_item
+            rule_index += translated_length
         self._has_time = any(
             directive in self.strptime_format for directive in DateTimeFieldFormat._STRPTIME_TIME_DIRECTIVES
         )
